@@ -198,7 +198,14 @@ def mct_case(run, drv, pending, case, rng=None):
     if not rows:
         run.count("mct:empty-catalog")
     try:
-        res = cat.apply_mct(*args)
+        # CALL FORMS: positionally and by keyword in the pinned order apply_mct(m_main, event_epoch, mc=2.5)
+        if case.get("seed", len(rows)) % 2:
+            kwargs = dict(m_main=args[0], event_epoch=args[1], **(dict(mc=args[2]) if len(args) > 2 else {}))
+            res = cat.apply_mct(**kwargs)
+            run.count("callform:apply_mct:keywords")
+        else:
+            res = cat.apply_mct(*args)
+            run.count("callform:apply_mct:positional")
     except Exception as e:
         run.oracle_failure(case, f"apply_mct raised {type(e).__name__}: {e}")
         return
@@ -912,6 +919,94 @@ def bigfilter_case(run, case):
     run.case(dict(kind="bigfilter", n=n), ("bigfilter", json.dumps(case, sort_keys=True, default=str)) if 0 < len(want_ids) < n else None)
 
 
+# ----------------------------------------------------------------------------- SIZE THRESHOLDS: 500 / 2 000 / 5 000 / 2^16 events
+SIZES = [600, 2500, 6000, 70000]
+
+
+def gen_sized_case(rng, n=None, sorted_=None):
+    """a catalog just above a size threshold, time-sorted or not, with many ties (origin times, magnitudes, depths repeat) and
+    thresholds equal to the value of a row in an EARLY block, the middle, the last row, or its +-1 neighbour: an implementation
+    that switches algorithm with the size / the ordering of the catalog (bisection, chunking, another dtype) must select the same rows"""
+    n = n or rng.choice(SIZES)
+    return dict(kind="sized", n=n + rng.randrange(0, 5), sorted=rng.random() < 0.5 if sorted_ is None else sorted_, seed=rng.randrange(2 ** 32),
+                n_stmts=rng.choice([1, 1, 2, 3]), in_place=rng.random() < 0.5, callform=rng.randrange(3), form=rng.choice(["string", "list", "tuple"]))
+
+
+@_guarded
+def sized_case(run, case):
+    import datetime as _dt
+    import random
+    from csep.core.catalogs import CSEPCatalog
+    r = random.Random(case["seed"])
+    g = numpy.random.default_rng(case["seed"])
+    n = case["n"]
+    t = 1262304000000 + numpy.cumsum(g.integers(0, 3, size=n)) * r.choice([1, 500, 1000])      # non-decreasing, many ties
+    mag = numpy.round(g.uniform(2.0, 8.0, size=n), 1)
+    dep = g.integers(0, 40, size=n).astype(float)
+    lat = numpy.round(g.uniform(30, 40, size=n), 2)
+    lon = numpy.round(g.uniform(-120, -110, size=n), 2)
+    if not case["sorted"]:
+        perm = g.permutation(n)
+        t = t[perm]
+    dt = numpy.dtype([("id", "S256"), ("origin_time", "<i8"), ("latitude", "<f8"), ("longitude", "<f8"), ("depth", "<f8"), ("magnitude", "<f8")])
+    data = numpy.zeros(n, dtype=dt)
+    data["id"] = numpy.arange(n).astype("S256")
+    data["origin_time"], data["latitude"], data["longitude"], data["depth"], data["magnitude"] = t, lat, lon, dep, mag
+    cols = dict(origin_time=t, latitude=lat, longitude=lon, depth=dep, magnitude=mag)
+    ops = {">": numpy.greater, "<": numpy.less, ">=": numpy.greater_equal, "<=": numpy.less_equal, "==": numpy.equal}
+    keep = numpy.ones(n, dtype=bool)
+    texts = []
+    for k in range(case["n_stmts"] if case["form"] != "string" else 1):
+        name = r.choice(["origin_time", "origin_time", "origin_time", "magnitude", "depth", "latitude", "longitude"])
+        sym = r.choice([">", "<", ">=", "<=", "==", "<", "<="])
+        pos = r.choice([r.randrange(0, max(1, n // 20)), n // 2, n - 1, 0, r.randrange(n)])     # an early block, the middle, the ends
+        v = cols[name][pos]
+        if name == "origin_time":
+            v = int(v) + r.choice([0, 0, 0, 1, -1])
+            keep &= ops[sym](t, v)                        # int64 against an integer: exact
+            if r.random() < 0.4:
+                d = _dt.datetime(1970, 1, 1) + _dt.timedelta(milliseconds=v)
+                texts.append(f"datetime {sym} " + d.strftime("%Y-%m-%d %H:%M:%S.%f") + r.choice(["", "+00:00"]))
+            else:
+                texts.append(f"origin_time {sym} {v}" if r.random() < 0.5 else f"origin_time {sym} {float(v)!r}")
+        else:
+            v = float(v) + r.choice([0.0, 0.0, 0.0, 0.1, -0.1])
+            keep &= ops[sym](cols[name], v)               # float64 against a float: exact
+            texts.append(f"{name} {sym} {v!r}")
+    want = numpy.arange(n)[keep]
+    arg = texts[0] if case["form"] == "string" else (tuple(texts) if case["form"] == "tuple" else list(texts))
+    ip, cf = case["in_place"], case["callform"]
+    run.count(f"sized:{'>2^16' if n > 65536 else '>5000' if n > 5000 else '>2000' if n > 2000 else '>500'}:{'sorted' if case['sorted'] else 'unsorted'}")
+    try:
+        cat = CSEPCatalog(data=data.copy())
+        res = cat.filter(arg, ip) if cf == 1 else (cat.filter(statements=arg, in_place=ip) if cf == 2 else cat.filter(arg, in_place=ip))
+        got = numpy.array([int(x) for x in res.get_event_ids()], dtype=numpy.int64)
+    except Exception as e:
+        run.oracle_failure(case, f"filter({texts}) on {n} events raised {type(e).__name__}: {e}")
+        return
+    if not numpy.array_equal(got, want):
+        diff = sorted(set(got.tolist()) ^ set(want.tolist()))[:6]
+        run.oracle_failure(case, f"filter({texts}) on a {'time-sorted' if case['sorted'] else 'time-unsorted'} catalog of {n} events kept "
+                                 f"{len(got)} rows, {len(want)} satisfy every statement (first differing row numbers {diff}; rows whose value "
+                                 f"equals a threshold are among them: {bool(diff)})")
+        return
+    if not numpy.array_equal(res.catalog[["origin_time", "magnitude", "depth"]], data[keep][["origin_time", "magnitude", "depth"]]):
+        run.oracle_failure(case, f"filter({texts}) on {n} events altered the fields of the kept rows")
+        return
+    if ip and res is not cat:
+        run.oracle_failure(case, "in_place=True did not return the catalog itself")
+        return
+    if not ip:
+        if res is cat or not numpy.array_equal(cat.catalog, data):
+            run.oracle_failure(case, f"filter({texts}, in_place=False) on {n} events " +
+                               ("returned the catalog itself" if res is cat else "changed the events of the original"))
+            return
+        if len(got) and numpy.shares_memory(res.catalog, cat.catalog):
+            run.oracle_failure(case, f"filter({texts}, in_place=False) on {n} events returned rows that share memory with the original")
+            return
+    run.case(dict(kind="sized", n=n), ("sized", json.dumps(case, sort_keys=True)) if 0 < len(want) < n else None)
+
+
 # ----------------------------------------------------------------------------- flushing
 def flush(run, drv, pending):
     out = drv.run()
@@ -952,6 +1047,13 @@ def run_all(run, rng, tier, Driver):
     flush(run, drv, pending)
     for _ in range(2 if tier == "quick" else 12):
         bigfilter_case(run, gen_bigfilter_case(rng))
+    # at least one catalog above each size threshold, time-sorted AND unsorted, in every run; more at random
+    for n in SIZES:
+        for srt in (True, False):
+            for _ in range(3 if n < 10000 else 1):
+                sized_case(run, gen_sized_case(rng, n, srt))
+    for _ in range(20 if tier == "quick" else 300):
+        sized_case(run, gen_sized_case(rng, rng.choice(SIZES[:3])))
     for _ in range(1200 if tier == "quick" else 12000):
         extra_case(run, gen_extra_case(rng), drv, pending)
         if len(pending) >= 2000:
@@ -971,6 +1073,8 @@ def replay(run, case, Driver):
         session_case(run, drv, pending, case)
     elif case["kind"] == "bigfilter":
         bigfilter_case(run, case)
+    elif case["kind"] == "sized":
+        sized_case(run, case)
     else:
         extra_case(run, case, drv, pending)
     flush(run, drv, pending)
